@@ -70,6 +70,7 @@ func vpResetJose() {
 	vpTokIssuer, vpTokSubject, vpTokExp, vpTokNbf, vpTokIat = "", "", nil, nil, nil
 	vpTokCustom = customClaims{}
 	vpTokClaimsMade = false
+	vpIdpAsked, vpPresentation = [2]bool{}, 0
 	vpMintSignerAlg, vpMintSignerKey, vpMintEncAlg, vpMintEncKeyAlg, vpMintEncKey = "", nil, "", "", nil
 	vpMintClaims, vpMintPrivate, vpMintKind, vpMintSerialized = nil, nil, 0, 0
 }
@@ -142,6 +143,20 @@ func vpParseSigned(s string, algs []jose.SignatureAlgorithm) (*jwt.JSONWebToken,
 	vpParseCalls++
 	for _, a := range algs {
 		vpSigAlgs = append(vpSigAlgs, string(a))
+	}
+	if vpIdpPerCall {
+		// history harness: a correctly signed, unexpired gateway cookie
+		vpPresentation = vpNowCalls
+		if vpPresentation > 1 {
+			vpPresentation = 1
+		}
+		vpTokAlgs = []string{"HS256"}
+		vpTokKind, vpTokSignedBy = 1, vpKeyPAASign
+		if !vpTokClaimsMade {
+			vpTokClaimsMade = true
+			vpTokIssuer, vpTokCustom = "rdpgw", customClaims{RemoteServer: "h", ClientIP: "a", AccessToken: vpStringN("c-at", 2)}
+		}
+		return &jwt.JSONWebToken{Headers: []jose.Header{{Algorithm: "HS256"}}}, nil
 	}
 	if !vpBool("is-compact-jws") {
 		return nil, errors.New("vp: not a compact JWS")
@@ -297,11 +312,25 @@ func vpUserInfo(p *oidc.Provider, ctx context.Context, ts oauth2.TokenSource) (*
 	if v, ok := ts.(vpTS); ok && v.tok != nil {
 		vpIdpToken = v.tok.AccessToken
 	}
+	if vpIdpPerCall {
+		// history harness: an independent verdict per presentation
+		vpIdpAsked[vpPresentation] = true
+		if !vpBool("idp-honours-token-" + vpItoa(vpIdpCalls)) {
+			return nil, errors.New("vp: IdP refuses the access token")
+		}
+		return &oidc.UserInfo{Subject: "sub"}, nil
+	}
 	if !vpBool("idp-honours-token") {
 		return nil, errors.New("vp: IdP refuses the access token")
 	}
 	return &oidc.UserInfo{Subject: vpStringN("idp-sub", 2)}, nil
 }
+
+var (
+	vpIdpPerCall   bool
+	vpIdpAsked     [2]bool
+	vpPresentation int
+)
 
 // time.Now: arbitrary instant between 2001 and 2100, non-decreasing.
 var vpLastNow int64
